@@ -39,6 +39,10 @@ OPTSETS = {
     "finite": (("finite",), "", False, False),
     "finite-ev": (("finite",), "", True, False),
     "smallest": ((), "", False, True),
+    "two": (("two",), "", False, False),
+    "two-smallest": (("two",), "", False, True),
+    "two-inferral": (("two", "inferral"), "", False, False),
+    "two-k": (("two",), "k", False, False),
     "inferral-symmetry": (("inferral", "symmetry"), "", False, False),
     "inferral-factory-finite": (("inferral", "factory", "finite"), "", False, False),
     "k": ((), "k", False, False),
@@ -52,8 +56,12 @@ _TABLES = {}
 
 
 def tables(S):
+    """S = 2, 3: canonical tables with S states; S = "2d": the two-state tables on doubled (redundant) automata."""
     if S not in _TABLES:
-        _TABLES[S] = R.canonical_tables(S)
+        if S == "2d":
+            _TABLES[S] = [R.doubled(t) for t in R.canonical_tables(2)]
+        else:
+            _TABLES[S] = R.canonical_tables(S)
     return _TABLES[S]
 
 
@@ -199,9 +207,10 @@ def tin(t):
 def std_groups(tier, dbs=("base", "forget", "forest"), opts=None, sched=True, rng=True, S3=True, extra=None):
     gs = []
     if opts is None:
-        opts = ["plain", "iterative", "inferral", "symmetry", "factory", "factory2", "finite", "finite-ev", "smallest", "k", "kk", "ku"]
+        opts = ["plain", "iterative", "inferral", "symmetry", "factory", "factory2", "finite", "finite-ev", "smallest", "k", "kk", "ku", "two",
+                "two-smallest"]
         if tier == "thorough":
-            opts += ["inferral-symmetry", "inferral-factory-finite", "k-inferral", "ku-factory"]
+            opts += ["inferral-symmetry", "inferral-factory-finite", "k-inferral", "ku-factory", "two-inferral", "two-k"]
 
     def add(name, fn, shape, expect=None, weight=10, timeout=1500.0):
         g = {"name": name, "fn": fn, "shape": shape, "cond_timeout": timeout, "path_timeout": 120.0, "weight": weight}
@@ -214,7 +223,7 @@ def std_groups(tier, dbs=("base", "forget", "forest"), opts=None, sched=True, rn
         for opt in opts:
             if opt in ("iterative",) and db.startswith("forest"):
                 continue
-            if opt == "smallest" and db != "base":
+            if opt in ("smallest", "two-smallest") and db != "base":
                 continue
             add("opt-%s-%s-S2" % (db, opt), "check_opt", {"db": db, "opt": opt, "S": 2}, expect=n2, weight=n2)
     if sched:
@@ -229,7 +238,8 @@ def std_groups(tier, dbs=("base", "forget", "forest"), opts=None, sched=True, rn
                         add("sched-%s-%s-S2-t%d" % (db, opt, lo), "check_sched", {"db": db, "opt": opt, "S": 2, "trange": [lo, min(n2, lo + 16)]}, weight=16 * 60)
     if rng:
         for lo in range(0, n2, 16):
-            add("rng-base-plain-S2-t%d" % lo, "check_rng", {"db": "base", "opt": "plain", "S": 2, "trange": [lo, min(n2, lo + 16)]}, weight=16 * 30)
+            # with two expansion strategies several proof trees exist, so the draw tape really chooses
+            add("rng-base-two-S2-t%d" % lo, "check_rng", {"db": "base", "opt": "two", "S": 2, "trange": [lo, min(n2, lo + 16)]}, weight=16 * 30)
         add("levels-base-plain-S2", "check_opt", {"db": "base", "opt": "plain", "S": 2, "mode": "levels", "levels": 3}, expect=n2, weight=n2)
         add("levels-forest-plain-S2", "check_opt", {"db": "forest", "opt": "plain", "S": 2, "mode": "levels", "levels": 3}, expect=n2, weight=n2)
     if S3 and tier == "thorough":
